@@ -28,6 +28,8 @@ import c02
 
 PID = "C05"
 MODES = ["start", "bounded", "step"]
+# what a failing handler raises: ordinary exceptions and one BaseException subclass that is not an Exception
+KINDS = ["runtime", "value", "key", "zerodiv", "custom", "stopiter", "base", "base"]
 
 
 def truncate(prog):
@@ -100,7 +102,7 @@ def tree_cases(rng, nprog, clocks):
         for h in range(1, len(prog)):
             for pos in range(len(prog[h]) + 1):
                 p2 = json.loads(json.dumps(prog))
-                p2[h].insert(pos, ["fail"])
+                p2[h].insert(pos, ["fail", KINDS[(j + h + pos) % len(KINDS)]])
                 for strat in S.STRATS:
                     for mode in MODES:
                         out.append({"clock": clock, "strategy": strat, "prog": p2,
@@ -112,6 +114,10 @@ def gen_case(rng: random.Random, i: int) -> dict:
     clock = S.CLOCKS[i % len(S.CLOCKS)]
     u = S.unit_of(clock)
     prog = S.gen_program(rng, clock, p_illegal=0.05, p_cancel=0.10, p_fail=rng.choice([0.15, 0.3, 0.6]), max_events=60)
+    for body in prog:
+        for a in body:
+            if a[0] == "fail":
+                a.append(rng.choice(KINDS))
     init = S.gen_repl(rng, clock)
     strat = S.STRATS[(i // 4) % 3]
     mode = MODES[(i // 12) % 3]
@@ -135,18 +141,21 @@ def prepare(cases, obs):
 
 def oracle(case, obs, ctx, idx):
     facts = {"fault_hit": False, "pause_resume": False, "continue": False, "failing_step": False,
-             "fault_before_other_events": False, "executed": 0}
+             "fault_before_other_events": False, "non_exception_fault_hit": False, "executed": 0}
     if "error" in obs:
         return ("driver-error", obs["error"]), facts
     bad_clock = S.log_insane(obs)
     if bad_clock:
         return ("clock-not-an-exact-number", bad_clock), facts
+    if obs.get("notes"):
+        return ("simulator-did-not-come-to-rest", "; ".join(obs["notes"]) + f" (snapshots so far: {obs.get('snaps')})"), facts
     why = S.representable(obs)
     base = ctx[idx]
     if "error" in base:
         return ("driver-error", base["error"]), facts
     prog = case["prog"]
     failing_h = {h for h, body in enumerate(prog) if any(a[0] == "fail" for a in body)}
+    base_h = {h for h, body in enumerate(prog) if any(a[0] == "fail" and len(a) > 1 and a[1] == "base" for a in body)}
     strat = case["strategy"]
     init = case["cmds"][0]
     end = init[3]
@@ -168,6 +177,8 @@ def oracle(case, obs, ctx, idx):
             n_fail_total += len(fails_here)
             if fails_here:
                 facts["fault_hit"] = True
+                if any(seg[k][3] in base_h for k in fails_here):
+                    facts["non_exception_fault_hit"] = True
             if c[0] == "step" and r == "ok":
                 if len(seg) > 1:
                     return ("step-executed-several-events", f"{len(seg)} events in one step"), facts
@@ -217,7 +228,8 @@ RULE = ("tree programs (every executed event has its own handler, <= 11 events; 
         "requests): every single failing event x every failure point inside its handler, exhaustively, x {LOG_AND_CONTINUE, "
         "WARN_AND_CONTINUE, WARN_AND_PAUSE} x {start repeated after each pause, bounded runs, steps}; plus generated DAG / loop "
         "programs with random subsets of failing handlers; non-trivial = distinct case executing >= 3 events in which a failing "
-        "handler was actually executed")
+        "handler was actually executed; what a failing handler raises is drawn from RuntimeError, ValueError, KeyError, "
+        "ZeroDivisionError, a custom Exception subclass, StopIteration and a custom BaseException subclass that is not an Exception")
 
 _tier_rng = {}
 
